@@ -63,8 +63,9 @@ Print Assumptions C04_splice_conserves.
      shape_store  : under every element namespace nodes, then attribute nodes, then ordinary children; attribute and
                     namespace nodes only under elements (or parentless); documents only as roots; only documents and
                     elements have children (Spec/Shape.v).
-   NOT in Good (hence partial, see evidence): uniqueness of attribute names / prefixes per element, and absence of
-   adjacent text nodes; those two clauses are decided by the correspondence run and its validity oracle only. *)
+     keys         : no element has two attribute nodes with the same name or two namespace nodes with the same prefix.
+   NOT in Good (hence partial, see evidence): absence of adjacent text nodes while consolidation was never switched off;
+   that clause is decided by the correspondence run and its validity oracle only. *)
 
 (* every call of the mutating API — append, prepend, insert_before/after, detach, remove, replace, element_wrap/unwrap,
    clone_node, any_append, the attribute / namespace map and node calls, the setters, text_content_mut, node creation,
@@ -84,8 +85,9 @@ Theorem C04_good_slots :
     NoDup (ids (store st) ++ free st)
     /\ (forall i, In i (ids (store st)) -> (0 <= stamp_of st i)%Z)
     /\ (forall i, In i (free st) -> (stamp_of st i < 0)%Z)
-    /\ shape_store (store st) = true.
-Proof. intros st [[H1 _ _ H4 H5] Hs]. auto. Qed.
+    /\ shape_store (store st) = true
+    /\ keys (store st) = true.
+Proof. intros st [[H1 _ _ H4 H5] [Hs Hk]]. auto. Qed.
 Print Assumptions C04_good_slots.
 
 (* a handle (slot, stamp) that has stopped being live is never live again, whatever is called afterwards, even when its
@@ -159,5 +161,8 @@ Proof. vm_compute. split; reflexivity. Qed.
 Example C04_shape_rejects :
   shape_store (FCons 0 (VElement 5) (FCons 1 (VText [104]) FNil (FCons 2 (VAttribute 7 []) FNil FNil)) FNil) = false
   /\ shape_store (FCons 0 (VElement 5) (FCons 1 VDocument FNil FNil) FNil) = false
-  /\ shape_store (FCons 0 (VText []) (FCons 1 (VElement 5) FNil FNil) FNil) = false.
-Proof. vm_compute. auto. Qed.
+  /\ shape_store (FCons 0 (VText []) (FCons 1 (VElement 5) FNil FNil) FNil) = false
+  /\ keys (FCons 0 (VElement 5) (FCons 1 (VAttribute 7 [1]) FNil (FCons 2 (VAttribute 7 [2]) FNil FNil)) FNil) = false
+  /\ keys (FCons 0 (VElement 5) (FCons 1 (VNamespace 3 1) FNil (FCons 2 (VNamespace 3 2) FNil FNil)) FNil) = false
+  /\ keys (FCons 0 (VElement 5) (FCons 1 (VNamespace 3 1) FNil (FCons 2 (VAttribute 3 [2]) FNil FNil)) FNil) = true.
+Proof. vm_compute. repeat split. Qed.
